@@ -364,3 +364,31 @@ MUTANTS += [
     dict(prop="C10", name="fasta-index-in-file-order (seeded C10-a)", file="bionumpy/io/indexed_fasta.py",
          old="        indices: FastaIdx = index_table[chromosome_i]", new="        indices: FastaIdx = self._index_table[chromosome_i]"),
 ]
+
+KM = "bionumpy/sequence/kmers.py"
+RO = "bionumpy/sequence/rollable.py"
+PWMF = "bionumpy/sequence/position_weight_matrix.py"
+KE = "bionumpy/encodings/kmer_encodings.py"
+
+MUTANTS += [
+    # ---- C13 ----------------------------------------------------------------------------
+    dict(prop="C13", name="window-one-trims-everything", file=RO,
+         old="            return out[..., : (-window_size + 1) or None]", new="            return out[..., : (-window_size + 1)]"),
+    dict(prop="C13", name="dna-kmers-trim-by-w", file=KM,
+         old="        return out[..., : (-window_size + 1) or None]", new="        return out[..., : -window_size]"),
+    dict(prop="C13", name="generic-kmer-powers-reversed", file=KM,
+         old="        self._convolution = self._alphabet_size ** np.arange(self._k)", new="        self._convolution = self._alphabet_size ** np.arange(self._k)[::-1]"),
+    dict(prop="C13", name="minimizer-max", file="bionumpy/sequence/minimizers.py",
+         old="        return EncodedArray(kmer_hashes.raw().min(axis=-1), kmer_hashes.encoding)", new="        return EncodedArray(kmer_hashes.raw().max(axis=-1), kmer_hashes.encoding)"),
+    dict(prop="C13", name="motif-no-trimming-leak-across-rows", file=PWMF,
+         old="    return scores[..., :(-pwm.window_size + 1) or None]", new="    return scores[..., :(-pwm.window_size + 2) or None] if pwm.window_size > 2 else scores[..., :(-pwm.window_size + 1) or None]"),
+    dict(prop="C13", name="motif-offset-rows", file=PWMF,
+         old="            scores[:scores.size - offset] += row[sequence[offset:].raw()]", new="            scores[:scores.size - offset] += row[sequence[offset:].raw()] if offset < 4 else 0"),
+    dict(prop="C13", name="kmer-to-string-bit-width", file=KE,
+         old="            tmp = (kmer >> (2 * np.arange(self._k))) & 3", new="            tmp = (kmer >> (2 * np.arange(self._k))) & 3 if self._k < 17 else (kmer >> (2 * np.arange(self._k)[::-1])) & 3"),
+    dict(prop="C13", name="match-string-any", file="bionumpy/sequence/string_matcher.py",
+         old="        return np.all(sequence == self._matching_sequence_array, axis=-1)", new="        return np.all((sequence == self._matching_sequence_array)[..., :5], axis=-1)"),
+    dict(prop="C13", name="kmer-encode-big-endian", file=KE,
+         old="            letters = self._alphabet_encoding.encode(data).raw()\n            return EncodedArray(\n                letters.dot(self._alphabet_encoding.alphabet_size ** np.arange(self._k)),\n                self)\n        if isinstance(data, (list",
+         new="            letters = self._alphabet_encoding.encode(data).raw()\n            return EncodedArray(\n                letters[::-1].dot(self._alphabet_encoding.alphabet_size ** np.arange(self._k)),\n                self)\n        if isinstance(data, (list"),
+]
